@@ -10,7 +10,7 @@ from ..core import RAISED, Sub
 RULE = (
     "discrete: data frames (3-5 columns, 5-200 rows, cards 2-4, int / object / categorical columns, sparse strata, "
     "strata where X or Y is constant, and exactly independent tables built as outer products of integer margins "
-    "per stratum) x (X, Y, Z subset incl. empty) x lambda_ in {pearson, log-likelihood, freeman-tukey, "
+    "per stratum) x (X, Y, Z subset incl. empty) x lambda_ in {numeric 0, 0.0, 1, -1, -2, -0.5, 2/3, pearson, log-likelihood, freeman-tukey, "
     "mod-log-likelihood, neyman, cressie-read, floats} x significance level; oracle = stratification by plain "
     "loops + scipy.stats.chi2_contingency per stratum (the documented base statistic), statistics and degrees of "
     "freedom summed, p = chi2.sf. continuous: frames of 20-200 rows with full column rank and affine maps a*v+b "
@@ -23,7 +23,8 @@ ASSUMPTIONS = [
     "p-values compared with 1e-10 absolute (the library uses 1-cdf), statistics with 1e-9 relative; nan==nan, inf==inf",
     "partial correlation: |dr| <= 1e-8 under shifts and positive rescalings; regression with intercept",
 ]
-LAMBDAS = ["pearson", "log-likelihood", "freeman-tukey", "mod-log-likelihood", "neyman", "cressie-read", 0.5, 2.0, -0.25]
+LAMBDAS = ["pearson", 0, "log-likelihood", "freeman-tukey", "mod-log-likelihood", "neyman", "cressie-read", 0.5, 2.0, -0.25,
+           0.0, 1, -1, -2.0, -0.5, 2 / 3]  # numeric members of the family, including the falsy zero (= G-test)
 
 
 @st.composite
